@@ -37,6 +37,12 @@ def rule_a(ctx):
         act = list(d.calls(r"PoolManager::activate_all_workers$"))
         joins = list(d.calls(r"^std::thread::JoinHandle::join$"))
         drains = [s for s in d.calls(r"^std::vec::Vec::drain$")]
+        pops = []
+        if not drains:
+            # the same loop written `while let Some(h) = self.worker_handles.pop()`: the vector is emptied one handle at a time
+            pops = [s for s in d.calls(r"^std::vec::Vec::pop$") if d.in_loop(s) and
+                    all(origin_proj_names(o)[1][-1:] == [("f", "worker_handles")] for o in d.origins(s.args()[0], s))]
+            drains = pops
         lw = [s for s in d.calls(r"ScopedLocalKey::set$") if any(x[0] == "static" and x[1].endswith("LOCAL_WORKER") for x in d.origins(s.args()[0], s))]
         ok = len(sets) == 1 and len(act) == 1 and len(joins) == 1 and len(drains) == 1 and len(lw) == 1
         ctx.ob("mt|sites", ok, "executor drop = abort signal, activate all workers, join loop over drained handles, cancellation under LOCAL_WORKER", sets + act + joins + drains + lw)
@@ -48,9 +54,9 @@ def rule_a(ctx):
                    and d.postdominates(lw[0], Site(d, 0, 0)),
                    "none of the shutdown steps is conditional", order)
             # the whole vector is drained
-            ro = d.origins(drains[0].args()[1], drains[0])
-            full = False
-            for o in ro:
+            ro = d.origins(drains[0].args()[1], drains[0]) if not pops else frozenset()
+            full = bool(pops)  # a pop loop that ends only at None (must-pass mt-drop-joins) empties the vector
+            for o in (ro if not pops else ()):
                 if o[0] == "agg" and o[3] in ("std::ops::RangeFrom", "std::ops::RangeFull"):
                     a = Site(d, o[1], o[2])
                     ops = a.node["r"]["ops"]
